@@ -170,7 +170,7 @@ def registry_is_a_function():
     return out
 
 
-@table("registry-dispatch", prop="C10", also=("C02",))
+@table("registry-dispatch", prop="C10", also=("C02", "C09"))
 def registry_dispatch():
     """the real DiameterAvpLoader.get_avp_class dispatches every registered (vendor, code) to its
     class and every unregistered neighbour key to KeyError (executed natively, finite)"""
